@@ -23,6 +23,8 @@ type C20Params struct {
 	Buf       int    // size of the log buffer (0 = the real 1024)
 	Shutdown  int    // root calls Shutdown after it has seen this many log calls return (-1: after everything went idle)
 	Second    bool   // a second thread calls Shutdown concurrently with the root
+	PkgInit   string // "", or a package level for the producers' package set before Start (Change "pkgdrop": a later SetPkgLevels without that package, "pkgunset": UnSetPkgLevels - both fall back to the global level)
+	Inline    bool   // Start runs inside the explored window and the root itself logs the lines of producer 0 before it calls Shutdown (no Quiesce after Start)
 }
 
 func (p C20Params) Name() string {
@@ -30,7 +32,14 @@ func (p C20Params) Name() string {
 	for _, l := range p.Producers {
 		ps = append(ps, strings.Join(l, ","))
 	}
-	return fmt.Sprintf("c20/%s/sched=%s%d/level=%s/change=%s/buf=%d/shutdown=%d/second=%v", strings.Join(ps, "|"), p.Sched, p.Triggers, p.Level, p.Change, p.Buf, p.Shutdown, p.Second)
+	n := fmt.Sprintf("c20/%s/sched=%s%d/level=%s/change=%s/buf=%d/shutdown=%d/second=%v", strings.Join(ps, "|"), p.Sched, p.Triggers, p.Level, p.Change, p.Buf, p.Shutdown, p.Second)
+	if p.PkgInit != "" {
+		n += "/pkginit=" + p.PkgInit
+	}
+	if p.Inline {
+		n += "/inline"
+	}
+	return n
 }
 
 func c20sev(s string) Severity {
@@ -71,14 +80,14 @@ type c20delivery struct {
 }
 
 type c20state struct {
-	seq        int
-	calls      []*c20call
-	delivered  []c20delivery
-	level      [2]Severity // level in force: [0]==[1] unless a change is in progress
-	returned   int
-	shutCall   int
-	shutRet    int
-	issues     []vsched.Issue
+	seq       int
+	calls     []*c20call
+	delivered []c20delivery
+	level     [2]Severity // level in force: [0]==[1] unless a change is in progress
+	returned  int
+	shutCall  int
+	shutRet   int
+	issues    []vsched.Issue
 }
 
 var c20 *c20state
@@ -131,6 +140,42 @@ func c20viaTracer(tr *ContextTracer, text string) { tr.Warning(text) }
 
 func c20enabled(sev Severity, lvl Severity) bool { return sev >= lvl }
 
+// c20produce makes one log call for producer pi and records it.
+func c20produce(s *c20state, pi, li int, spec string) {
+	parts := strings.SplitN(spec, ":", 2)
+	text := fmt.Sprintf("p%d-%s", pi, parts[1])
+	call := &c20call{producer: pi, idx: li, text: text}
+	vsched.Point("produce")
+	s.seq++
+	call.startSeq = s.seq
+	call.lvlStart = s.level
+	if parts[0] == "T" {
+		call.tracer = true
+		call.sev = WarningLevel
+		_, tr := AddTracer(context.Background())
+		if tr == nil {
+			// tracing is only available at trace level: nothing is submitted
+			call.sev = 0 // below every level: must not be emitted
+		} else {
+			tr.Info(text + "-a")
+			c20viaTracer(tr, text)
+			tr.Submit()
+		}
+	} else if parts[0] == "N" {
+		// a plain warning logged through the tracer API without a tracer: same call site as the main line of a submission
+		call.sev = WarningLevel
+		c20viaTracer(nil, text)
+	} else {
+		call.sev = c20sev(parts[0])
+		c20emit(call.sev, text)
+	}
+	s.seq++
+	call.retSeq = s.seq
+	call.lvlEnd = s.level
+	s.calls = append(s.calls, call)
+	s.returned++
+}
+
 // VerifC20 builds the scenario.
 func VerifC20(p C20Params) *vsched.Scenario {
 	sc := &vsched.Scenario{Name: p.Name(), MaxSteps: 400000}
@@ -147,6 +192,45 @@ func VerifC20(p C20Params) *vsched.Scenario {
 		lvl := c20sev(p.Level)
 		s.level = [2]Severity{lvl, lvl}
 		SetLogLevel(lvl)
+		if p.PkgInit != "" {
+			pl := c20sev(p.PkgInit)
+			SetPkgLevels(map[string]Severity{"log": pl})
+			s.level = [2]Severity{pl, pl}
+		}
+		total := 0
+		for _, l := range p.Producers {
+			total += len(l)
+		}
+		retCh := make(chan struct{}, total+1)
+		produce := func(pi, li int, spec string) {
+			c20produce(s, pi, li, spec)
+			retCh <- struct{}{}
+		}
+		if p.Inline {
+			// nobody uses the buffer before Start
+			if p.Buf > 0 {
+				logBuffer = make(chan *logLine, p.Buf)
+			}
+			vsched.Explore(true)
+			if err := Start(); err != nil {
+				c20fail("harness", "start", "Start failed: %v", err)
+				return
+			}
+			for li, spec := range p.Producers[0] {
+				produce(0, li, spec)
+			}
+			s.seq++
+			s.shutCall = s.seq
+			vsched.Ev("Shutdown-called")
+			Shutdown()
+			s.seq++
+			s.shutRet = s.seq
+			vsched.Ev("Shutdown-returned")
+			vsched.Explore(false)
+			vsched.Quiesce()
+			c20judge(p, s)
+			return
+		}
 		if err := Start(); err != nil {
 			c20fail("harness", "start", "Start failed: %v", err)
 			return
@@ -157,12 +241,7 @@ func VerifC20(p C20Params) *vsched.Scenario {
 			// the writer is parked waiting for work: shrink the buffer so that overflow handling is reached with a few lines
 			logBuffer = make(chan *logLine, p.Buf)
 		}
-		total := 0
-		for _, l := range p.Producers {
-			total += len(l)
-		}
 
-		retCh := make(chan struct{}, total+1)
 		vsched.Explore(true)
 		var wg sync.WaitGroup
 		for pi, lines := range p.Producers {
@@ -171,39 +250,7 @@ func VerifC20(p C20Params) *vsched.Scenario {
 			go func() {
 				defer wg.Done()
 				for li, spec := range lines {
-					parts := strings.SplitN(spec, ":", 2)
-					text := fmt.Sprintf("p%d-%s", pi, parts[1])
-					call := &c20call{producer: pi, idx: li, text: text}
-					vsched.Point("produce")
-					s.seq++
-					call.startSeq = s.seq
-					call.lvlStart = s.level
-					if parts[0] == "T" {
-						call.tracer = true
-						call.sev = WarningLevel
-						_, tr := AddTracer(context.Background())
-						if tr == nil {
-							// tracing is only available at trace level: nothing is submitted
-							call.sev = 0 // below every level: must not be emitted
-						} else {
-							tr.Info(text + "-a")
-							c20viaTracer(tr, text)
-							tr.Submit()
-						}
-					} else if parts[0] == "N" {
-						// a plain warning logged through the tracer API without a tracer: same call site as the main line of a submission
-						call.sev = WarningLevel
-						c20viaTracer(nil, text)
-					} else {
-						call.sev = c20sev(parts[0])
-						c20emit(call.sev, text)
-					}
-					s.seq++
-					call.retSeq = s.seq
-					call.lvlEnd = s.level
-					s.calls = append(s.calls, call)
-					s.returned++
-					retCh <- struct{}{}
+					produce(pi, li, spec)
 				}
 			}()
 		}
@@ -222,7 +269,16 @@ func VerifC20(p C20Params) *vsched.Scenario {
 			go func() {
 				defer wg.Done()
 				vsched.Point("change-level")
-				if strings.HasPrefix(p.Change, "pkg:") {
+				if p.Change == "pkgdrop" || p.Change == "pkgunset" {
+					// the package loses its own level: the global level is in force again
+					s.level[1] = lvl
+					if p.Change == "pkgdrop" {
+						SetPkgLevels(map[string]Severity{"zzother": TraceLevel})
+					} else {
+						UnSetPkgLevels()
+					}
+					s.level[0] = lvl
+				} else if strings.HasPrefix(p.Change, "pkg:") {
 					nl := c20sev(strings.TrimPrefix(p.Change, "pkg:"))
 					s.level[1] = nl
 					SetPkgLevels(map[string]Severity{"log": nl})
